@@ -289,6 +289,38 @@ func TestLimitBoundaries(t *testing.T) {
 	stats.Note("limit_boundaries", fmt.Sprintf("%d patterns: %d shapes x limits %v (-1 = default) x counts around each limit and around 65536 and 131072", cases, len(limitShapes), limits))
 }
 
+// TestAdjacencyFamily: every pattern "prefix W1 sep W2 suffix" for wildcards with and without leading text and separators made of
+// slashes, text and parameters - the neighbourhood of the rules "one wildcard per segment, at its end" and "no two catch-alls
+// separated only by a slash".
+func TestAdjacencyFamily(t *testing.T) {
+	wild := []string{"*{a}", "x*{a}", "{a}", "x{a}", "*{a}x", "{a}x"}
+	seps := []string{"", "/", "//", "///", "a", "/a", "a/", "/a/", "//a", "a//", "/{p}/", "/{p}", "{p}/", "/*", "*/", "/./", "."}
+	n := 0
+	for _, prefix := range []string{"/", "/p/", "a.b/", "/p//"} {
+		for _, w1 := range wild {
+			for _, sep := range seps {
+				for _, w2 := range wild {
+					for _, suffix := range []string{"", "/", "/x", "//"} {
+						c := &GramCase{Pattern: stats.B(prefix + w1 + sep + strings.Replace(w2, "{a}", "{b}", 1) + suffix), MaxParams: -1, MaxKey: -1}
+						if n++; n%997 == 5 {
+							stats.Sample(c)
+						}
+						if ref.ValidPattern(string(c.Pattern), 65535, 65535) {
+							stats.Class("adjacency-family:valid")
+						} else {
+							stats.Class("adjacency-family:invalid")
+						}
+						if !judge(c) {
+							t.Fatalf("violation on %q", c.Pattern)
+						}
+					}
+				}
+			}
+		}
+	}
+	stats.Note("adjacency_family", fmt.Sprintf("%d patterns: 4 prefixes x 6 wildcard forms x 17 separators x 6 wildcard forms x 4 suffixes", n))
+}
+
 var gramTokens = []string{"/", "/", "a", "ab", "{", "}", "*", "{p}", "{ab}", "{abc}", "{abcd}", "*{c}", "*{cd}", "*{cde}", ".", "-", "1", "{}", "*{}", "**", "x{p}", "x*{c}", "{p}x", "{a.b}", "{a/b}", "com", "é", "%2F", "}{", "*}"}
 
 func soup(t *rapid.T, toks []string, lo, hi int) string {
